@@ -3,7 +3,6 @@
 package main
 
 import (
-	"encoding/json"
 	"fmt"
 	"sort"
 	"strings"
@@ -284,7 +283,7 @@ func c08Run(r *vkit.Run) {
 
 func c08Replay(r *vkit.Run, v vkit.Violation) *vkit.Violation {
 	var in c08Input
-	if err := json.Unmarshal(v.Input, &in); err != nil {
+	if err := vkit.DecodeInput(v, &in); err != nil {
 		r.HarnessError("bad input: %v", err)
 	}
 	return vkit.ReplayOne(r, func() { c08Check(r, in) })
